@@ -7,7 +7,7 @@
    every fault pattern ([OFlush shmok qfull], [OClose qfull]), every schedule of writers, the
    receiving event loop and the send loop (one shared access per step). *)
 From Coq Require Import List ZArith Lia Bool Arith.
-From Shm Require Import Gen.Consts Model.Wakeup Model.Mux Model.MuxCallback Proofs.MuxProofs Proofs.MuxOrderProofs.
+From Shm Require Import Gen.Consts Gen.SwitchC07 Model.Wakeup Model.Mux Model.MuxCallback Proofs.MuxProofs Proofs.MuxOrderProofs.
 Import ListNotations.
 Open Scope nat_scope.
 
@@ -44,6 +44,25 @@ Definition C07_order_full : Prop :=
 Theorem C07_order : C07_order_full.
 Proof. exact order_holds. Qed.
 Print Assumptions C07_order.
+
+(* WHAT C07_order DEPENDS ON IN THE SOURCE.  [mrun] is [mrun_g sw_fallback_sticky]: the switch is regenerated
+   on every run from the statements of stream.go that set / test Stream.inFallbackState (props/C07.py; an
+   unknown shape is a broken correspondence).  With a flag that is NOT sticky (Flush assigns it from the
+   current buffer, so a stream returns to the queue when shared memory recovers) the order statement is false:
+   the receiver empties the queue before it hands a socket item to its stream — correct only because a stream
+   never goes back from the socket to the queue. *)
+Theorem C07_order_needs_sticky_fallback :
+  ~ (forall progs sched s, ordered s (mrun_g false sched (minit progs)) = true).
+Proof. exact unsticky_refutes_order. Qed.
+Print Assumptions C07_order_needs_sticky_fallback.
+
+Example C07_regression_fallback_flag_not_sticky :
+  (let st := mrun_g false wit_u_sched (minit wit_u_progs) in
+   seen 0 st = [DData 0; DData 2; DData 1] /\ sent 0 st = [DData 0; DData 1; DData 2] /\
+   map snd (flog st) = [VQ; VS; VQ] /\ ordered 0 st = false) /\
+  (let st := mrun_g true wit_u_sched (minit wit_u_progs) in
+   seen 0 st = [DData 0; DData 1; DData 2] /\ map snd (flog st) = [VQ; VS; VS] /\ ordered 0 st = true).
+Proof. exact unsticky_run. Qed.
 
 (* regression: the former witness schedules, now delivered in order *)
 Example C07_regression_close_follows_fallback_data :
